@@ -790,9 +790,12 @@ func (g *Graph) Build(metaData *MetaData, varPool *VarPool) (*Injector, error) {
 	}
 
 	var err error
-	injector.Stmts, err = g.buildStmts(pools, nodeProvidedNodes, initialProvidedNodes)
-	if err != nil {
-		return nil, fmt.Errorf("build statements: %w", err)
+	// When the requested type has no provider it is an injector argument and there is nothing to call.
+	if g.returnValue.node.providerSpec != nil {
+		injector.Stmts, err = g.buildStmts(pools, nodeProvidedNodes, initialProvidedNodes)
+		if err != nil {
+			return nil, fmt.Errorf("build statements: %w", err)
+		}
 	}
 
 	// Inject context.Context argument if async providers exist
